@@ -463,6 +463,7 @@ class ExprDictComp(Expr):
         yield from _yield(self.key, flat=flat, precedence=_PREC_TEST)
         yield ": "
         yield from _yield(self.value, flat=flat, precedence=_PREC_TEST)
+        yield " "
         yield from _join(self.generators, " ", flat=flat)
         yield "}"
 
